@@ -29,8 +29,11 @@ MANIFEST = dict(
           'with the skip-nullable loop and the shared Cat[x, Star x] of Many1 included); C02_subset / C02_subset_language (L-subset '
           'for the model of dfa_from_regex for EVERY pop order: deterministic, state after an item word = set of next positions, '
           'accepting = contains the end marker, every state reachable); C02_subwords and C02_language (the model pipeline from a '
-          'validated tree accepts exactly what the tree denotes, inside words and on the command line; the minimised automata enter '
-          'through the hypothesis subs_ok / C02_minimised_transfer, i.e. relative to C03). The models are tied to src/regex.rs and '
+          'validated tree accepts exactly what the tree denotes, inside words and on the command line); C03_wf_from_regex (every raw '
+          'automaton satisfies the hypotheses wf/trim of the C03 theorems) and C02_minimised (the minimised main automaton with minimised '
+          'within-word automata accepts exactly what the tree denotes); fuel adequacy of check_ambiguities and of the subset '
+          'construction and C02_total (from every tree the checker returns the whole pipeline regex -> raw -> minimised exists, no panic, '
+          'no fuel exhaustion). The models are tied to src/regex.rs and '
           'src/dfa.rs on every run: exact equality of the REGEX stage (positions, inputs with spans, node arena, first, follow, '
           'intern pool, UnboundedMatchable spans) and of the raw automata (isomorphism, then exact equality under replay of the pop '
           'order that Rust\'s row order reveals), each stage fed with Rust\'s previous-stage output. Independently of the models, the '
@@ -109,7 +112,7 @@ def handmade():
 
 def random_grammars(ctx):
     r = ctx['rng']
-    n = 1400 if ctx['tier'] == 'quick' else 12000
+    n = 1100 if ctx['tier'] == 'quick' else 12000
     out = []
     for k in range(n):
         deep = k % 3 == 0
